@@ -22,6 +22,7 @@ class Obligation:
     ok: bool
     reason: str = ""
     info: bool = False  # informational only (never a verdict)
+    soft: bool = False  # the rule could not recognise the construct it looks for (not evidence against the property): exit 2, not 1
 
     @property
     def key(self) -> str:
@@ -55,7 +56,7 @@ class Result:
         self.not_decided: List[str] = []
         self.rules_doc: Dict[str, str] = {}
 
-    def ob(self, rule, fi_or_name, role, instance, node_or_loc, ok, reason=""):
+    def ob(self, rule, fi_or_name, role, instance, node_or_loc, ok, reason="", soft=None):
         if hasattr(fi_or_name, "qualname"):
             fn = fi_or_name.qualname
             if hasattr(node_or_loc, "lineno"):
@@ -68,6 +69,8 @@ class Result:
             fn = str(fi_or_name)
             loc = node_or_loc if isinstance(node_or_loc, str) else "-"
         o = Obligation(rule, fn, role, instance, loc, bool(ok), reason)
+        if not o.ok:
+            o.soft = bool(soft) if soft is not None else unrecognised(rule, role, reason)
         self.obligations.append(o)
         return o
 
@@ -86,6 +89,51 @@ class Result:
         self.rules_doc[rule] = text
 
 
+# A failed obligation is *soft* when the rule did not find / could not classify the construct it reasons about: that is
+# "the analysis cannot speak about code of this shape" (exit 2), not evidence that the property is broken (exit 1).
+# Deleting a mechanism and re-writing it beyond recognition look the same to such a rule; where a rule can tell them
+# apart it passes soft= explicitly.  The patterns below cover the rules' generic "not found" wordings.
+import re as _re
+
+_SOFT_REASON = _re.compile(
+    r"^(0 site\(s\)|0 (append|restore|start|growth|accumulation|loop|static|residue|mass-comparing|MolFromSmiles)\b|no (loop|finalisation closure|growth|element dispatch|rng\.choice in|attach_other in|test `|guarded AddBond|traversal of this system|statement)|"
+    r"statement pattern .* not found|look-ahead not found|loop shape not recognised|dispatches to None|\[\(None, None\)|got (self\._|[A-Za-z_]+$)|$)"
+    r"|'other:|\bother:|not found in a recognised form|cannot be (evaluated|normalised)|outside the (abstract domain|interval evaluator)|is obtained in a way the an"
+)
+_SOFT_ROLE = _re.compile(r"^present:")
+_HARD_RULES = {"R-GUARD-INVENTORY", "R-GUARD-REACHED", "R-COMPAT-TABLE", "R-COMPAT-READSET"}
+
+
+_SOFT_TABLE = None
+
+
+def _norm_role(r: str) -> str:
+    r = _re.sub(r"@\d+", "@N", r or "")
+    r = _re.sub(r"__i\d+", "", r)
+    return r[:60]
+
+
+def _soft_table():
+    global _SOFT_TABLE
+    if _SOFT_TABLE is None:
+        p_ = os.path.join(os.path.dirname(os.path.abspath(__file__)), "soft_roles.json")
+        try:
+            _SOFT_TABLE = {tuple(x) for x in json.load(open(p_))["roles"]}
+        except Exception:  # noqa: BLE001
+            _SOFT_TABLE = set()
+    return _SOFT_TABLE
+
+
+def unrecognised(rule: str, role: str, reason: str) -> bool:
+    if (rule, _norm_role(role)) in _soft_table():
+        return True
+    if rule in _HARD_RULES:
+        return False
+    if _SOFT_ROLE.search(role or "") and (reason or "").startswith("0 site"):
+        return True
+    return bool(_SOFT_REASON.search(reason or ""))
+
+
 def load_known() -> dict:
     if not os.path.exists(KNOWN_FINDINGS):
         return {"known": [], "fixed": []}
@@ -100,7 +148,9 @@ def finish(res: Result, tier: str, seed: int, level: str, t0: float, program, ex
     known_keys = {k["key"]: k for k in known.get("known", []) if k.get("property") == res.prop}
     violated = [o for o in res.obligations if not o.ok]
     listed = [o for o in violated if o.key in known_keys]
-    unlisted = [o for o in violated if o.key not in known_keys]
+    unlisted_all = [o for o in violated if o.key not in known_keys]
+    unlisted = [o for o in unlisted_all if not o.soft]
+    soft = [o for o in unlisted_all if o.soft]
     floor_errors = [f"{r}: found {f} instance(s), minimum confirmed by hand {m}" for r, (f, m) in res.floors.items() if f < m]
 
     for o in res.obligations:
@@ -148,6 +198,7 @@ def finish(res: Result, tier: str, seed: int, level: str, t0: float, program, ex
         "assumptions": res.assumptions,
         "wall_s": round(time.time() - t0, 3),
         "violations": len(unlisted),
+        "undecided": len(soft),
     }
     if write:
         os.makedirs(EVIDENCE_DIR, exist_ok=True)
@@ -159,6 +210,12 @@ def finish(res: Result, tier: str, seed: int, level: str, t0: float, program, ex
         f"SUMMARY property={res.prop} tier={tier} obligations={n_ob} discharged={n_ok} "
         f"known={len(listed)} violated={len(unlisted)} functions={len(res.units)}"
     )
+    for o in soft:
+        print(f"UNRECOGNISED: {o.line()}")
+    if soft and not unlisted:
+        print(f"ANALYSIS-ERROR property={res.prop} the code no longer has the shape {len(soft)} obligation(s) of this check reason about "
+              f"(rules {sorted({o.rule for o in soft})}): they could not be decided — this is not a statement about the property")
+        return 2
     if floor_errors and not unlisted:
         for f in floor_errors:
             print(f"ANALYSIS-ERROR property={res.prop} vacuity floor not met — {f}")
